@@ -1,5 +1,7 @@
 package main
 
+import "fmt"
+
 // One small payload per production of the grammar G (and per defect shape found so far): the minimal witnesses of a
 // defect are among them, so a violation is reported with a case a person can read.
 
@@ -106,6 +108,22 @@ func seedPayloads() []*V {
 	add(tmapv([]PTag{{Ptr: "/k1/k2/k1", Class: "public"}}, "k1", imap("k2", imap("k1", str(1), "k2", str(2)))))
 	add(tmapv([]PTag{{Ptr: "/k1/k2/k1", Class: "public"}, {Ptr: "/k1/k2/k2", Class: "sensitive", Op: "hmac-sha256"}, {Ptr: "/k3/k1", Class: "public"}, {Ptr: "/k1/k1/k1", Class: "secret"}},
 		"k1", imap("k1", str(1), "k2", imap("k1", str(2), "k2", str(3), "k3", str(4))), "k2", str(5), "k3", imap("k1", str(6), "k2", str(7))))
+	// pointers through 3, 4 and 5 intermediate maps, with a public, a sensitive (encrypt) and a sensitive hmac leaf at the bottom
+	for depth := 3; depth <= 5; depth++ {
+		bottom := imap("k1", str(1), "k2", str(2), "k3", str(3), "k4", str(4))
+		path := ""
+		cur := bottom
+		for d := depth; d >= 1; d-- {
+			cur = imap(fmt.Sprintf("k%d", d), cur, "k9", str(10+d))
+		}
+		for d := 1; d <= depth; d++ {
+			path += fmt.Sprintf("/k%d", d)
+		}
+		cur.K, cur.Iface = "tmap", false
+		cur.Tags = []PTag{{Ptr: path + "/k1", Class: "public"}, {Ptr: path + "/k2", Class: "sensitive"}, {Ptr: path + "/k3", Class: "sensitive", Op: "hmac-sha256"}}
+		add(cur)
+		add(ptr(st(fld("F1", nil, cur))))
+	}
 	add(tmapv([]PTag{{Ptr: "k1", Class: "secret"}}, "k1", str(1)))
 	add(tmapv([]PTag{{Ptr: "/k1", Class: "bogus"}}, "k1", str(1)))
 	add(tmapv([]PTag{{Ptr: "/k1", Class: "bogus"}}, "k2", str(1)))
